@@ -499,6 +499,7 @@ func (v *FV) havocGhost(st *State, g *GhostField, ref Term) []touched {
 
 func (v *FV) havocField(env *ExprEnv, st *State, base TV, name string) ([]touched, error) {
 	ty := types.Unalias(base.Ty)
+	name = v.aliasName(ty, name)
 	if g := v.findGhost(ty, name); g != nil {
 		return v.havocGhost(st, g, base.T), nil
 	}
@@ -1468,6 +1469,11 @@ func (v *FV) bumpCalls(st *State, f Term, args []TV) {
 	v.wr(st.snap, "CALLS", f, v.iadd(v.rd(st.snap, "CALLS", f), v.idxLit(1)))
 	if len(args) > 0 && args[0].Sort == "Int" {
 		v.wr(st.snap, "ARGNN", f, fmt.Sprintf("(not (= %s 0))", args[0].T))
+	}
+	if len(args) > 0 && args[0].Sort == v.idx() {
+		// lastarg(f): the (64-bit integer) first argument of the last invocation
+		v.regArray("ARGV", fmt.Sprintf("(Array Int %s)", v.idx()))
+		v.wr(st.snap, "ARGV", f, args[0].T)
 	}
 }
 
